@@ -3,6 +3,7 @@ package c13
 import (
 	"encoding/json"
 	"fmt"
+	"sync"
 	"sync/atomic"
 	"time"
 
@@ -45,6 +46,61 @@ type SeqCase struct {
 	Ops  []SeqOp `json:"ops"`
 }
 
+// val maps a case value to the stored value: 0 stands for an explicit nil.
+func val(v int) interface{} {
+	if v == 0 {
+		return nil
+	}
+	return v
+}
+
+// Whether a level that holds an EXPLICIT nil for a key "has a value" (and hides the parent's)
+// is not spelled out by the statement; what the statement does fix is that every way of reading
+// follows one rule. The rule is measured once on the code under test with plain reads
+// (nilUnknown: the ways of storing a nil disagree - then no explicit nil is used at all).
+const (
+	nilUnknown = iota
+	nilHides
+	nilFallsThrough
+)
+
+var (
+	nilOnce sync.Once
+	nilRule int
+)
+
+func nilPolicy() int {
+	nilOnce.Do(func() {
+		defer func() {
+			if recover() != nil {
+				nilRule = nilUnknown
+			}
+		}()
+		k := keyPool[0]
+		p1 := datascope.New(map[interface{}]interface{}{k: 5})
+		c1 := datascope.NewChild(p1, map[interface{}]interface{}{})
+		c1.SetValue(k, nil)
+		a := c1.Value(k) == nil
+		c2 := datascope.NewChild(p1, map[interface{}]interface{}{k: nil})
+		b := c2.Value(k) == nil
+		s1 := scope.New(scope.Params{DataScope: datascope.New(map[interface{}]interface{}{k: 5})})
+		s2 := scope.NewChild(s1, scope.ChildParams{})
+		s2.SetValue(k, nil)
+		c := s2.Value(k) == nil
+		switch {
+		case a && b && c:
+			nilRule = nilHides
+		case !a && !b && !c:
+			nilRule = nilFallsThrough
+		default:
+			nilRule = nilUnknown
+		}
+		hx.Note("explicit nil stored in a child data scope: rule measured on the code under test = %s",
+			[]string{"not uniform (explicit nil not used)", "hides the parent's value", "falls through to the parent"}[nilRule])
+	})
+	return nilRule
+}
+
 // seqModel is the reference: one map per level plus which levels are locked.
 type seqModel struct {
 	lv     []map[int]int
@@ -79,6 +135,9 @@ func (m *seqModel) resolve(l, k int, viaLocker bool) (val int, found bool, at in
 			return 0, false, 0, true
 		}
 		if v, ok := m.lv[i][k]; ok {
+			if v == 0 && nilPolicy() != nilHides {
+				continue // an explicit nil that does not count as a value
+			}
 			return v, true, i, false
 		}
 	}
@@ -146,7 +205,11 @@ func GenSeq(rt *rapid.T) SeqCase {
 		for k := range keyPool {
 			if hx.Chance(rt, 25, "init") {
 				uniq++
-				kvs = append(kvs, KV{K: k, V: uniq})
+				kv := KV{K: k, V: uniq}
+				if l > 0 && nilPolicy() != nilUnknown && hx.Chance(rt, 10, "initnil") {
+					kv.V = 0 // explicit nil
+				}
+				kvs = append(kvs, kv)
 			}
 		}
 		c.Init = append(c.Init, kvs)
@@ -190,6 +253,9 @@ func GenSeq(rt *rapid.T) SeqCase {
 		switch op.Op {
 		case "set", "lset":
 			op.V = i + 1
+			if l > 0 && nilPolicy() != nilUnknown && hx.Chance(rt, 10, "setnil") {
+				op.V = 0 // explicit nil
+			}
 			m.lv[l][k] = op.V
 		case "lock":
 			op.K = 0
@@ -253,7 +319,7 @@ func buildChain(via string, init [][]KV) []app.DataScope {
 		mp := map[interface{}]interface{}{}
 		for _, kv := range kvs {
 			if kv.K >= 0 && kv.K < len(keyPool) {
-				mp[keyPool[kv.K]] = kv.V
+				mp[keyPool[kv.K]] = val(kv.V)
 			}
 		}
 		return mp
@@ -269,7 +335,7 @@ func buildChain(via string, init [][]KV) []app.DataScope {
 				s = scope.NewChild(prev, scope.ChildParams{})
 				for _, kv := range kvs {
 					if kv.K >= 0 && kv.K < len(keyPool) {
-						s.SetValue(keyPool[kv.K], kv.V)
+						s.SetValue(keyPool[kv.K], val(kv.V))
 					}
 				}
 			}
@@ -324,6 +390,13 @@ func runSeq(c SeqCase) hx.Verdict {
 			}
 			return nil
 		}
+		if exp == 0 {
+			if got != nil {
+				f := fail(step, "overlay-own", "%s after %s: level %d key %v: level %d holds an explicit nil (which hides the parent's value in a plain read of this implementation), got %v", what, describe(step), l, keyPool[k], at, got)
+				return &f
+			}
+			return nil
+		}
 		if gi, ok := got.(int); !ok || gi != exp {
 			clause := "overlay-own"
 			if at < l {
@@ -361,7 +434,7 @@ func runSeq(c SeqCase) hx.Verdict {
 		key := keyPool[op.K]
 		switch op.Op {
 		case "set":
-			chain[op.L].SetValue(key, op.V)
+			chain[op.L].SetValue(key, val(op.V))
 			m.lv[op.L][op.K] = op.V
 			for l := op.L + 1; l < depth; l++ {
 				if childRead[[2]int{l, op.K}] {
@@ -369,7 +442,7 @@ func runSeq(c SeqCase) hx.Verdict {
 				}
 			}
 		case "lset":
-			lockers[op.L].SetValue(key, op.V)
+			lockers[op.L].SetValue(key, val(op.V))
 			m.lv[op.L][op.K] = op.V
 		case "get", "lget":
 			var got interface{}
@@ -381,6 +454,12 @@ func runSeq(c SeqCase) hx.Verdict {
 			}
 			if f := check(i, op.L, op.K, got, op.Op); f != nil {
 				return *f
+			}
+			if ev, found, _, _ := m.resolve(op.L, op.K, m.locked[op.L]); found && ev == 0 {
+				v.Label("seq:read-of-explicit-nil-own-value")
+				if op.Op == "lget" {
+					v.Label("seq:locker-read-of-explicit-nil-own-value")
+				}
 			}
 			if _, found, at, _ := m.resolve(op.L, op.K, m.locked[op.L]); found && at < op.L {
 				fall++
